@@ -59,7 +59,27 @@ def run(tier):
     if cex:
         hists = [c["h"] for c in cex] + hists  # counterexample-guided replay
     # 2. replay into the real binary
-    hunk_hists = [h for h in hists if any(l["c"] in ("minus", "plus", "zero", "cin") for l in h)]
+    # plain diff -u / diff -ru input (no git header lines; the "--- " ambiguity and its line counter)
+    du_stats = {}
+    for cfg in ("bare", "titled"):
+        mdu = tlc.run_tlc("MC_DiffU", cfg=f"MC_DiffU_{cfg}", workers=8, coverage=False, heap="8g", timeout=3000)
+        tlc.require_ok(mdu, "MC_DiffU_" + cfg)
+        if mdu.violated:
+            cex += [v for t, v in mdu.printed if t == "CEX"][:3]
+        cdu, st = stream.cover_histories(pairs=(tier == "thorough"), cfg=f"Cover_DiffU_{cfg}", module="Cover_DiffU")
+        du_stats[cfg] = {"states": mdu.distinct, "cover": st}
+        hists += [v["h"] for t, v in mdu.printed if t == "REPLAY"] + cdu
+    amb = tlc.run_tlc("MC_DiffU", cfg="MC_DiffU_ambig", workers=4, coverage=False, timeout=900)
+    if not amb.violated:
+        V.drift.append("module=Impl_Stream the model no longer mistakes header look-alike lines of diff -u input for headers")
+    # header look-alike hunk lines in diff -u input (a recorded finding, see known_findings.json)
+    Lk = lambda c, f=0, g=0, kd="": {"c": c, "f": f, "g": g, "kd": kd}
+    lookalikes = [
+        ("plus3", [Lk("mmm", 1, 0, "dufile"), Lk("ppp", 1), Lk("hh", 0, 1), Lk("zero"), Lk("plus3"), Lk("plus")]),
+        ("plus3", [Lk("du", 1, 1, "du"), Lk("mmm", 1), Lk("ppp", 1), Lk("hh", 0, 1), Lk("minus"), Lk("plus3")]),
+        ("minus3-titled", [Lk("du", 1, 1, "du"), Lk("mmm", 1), Lk("ppp", 1), Lk("hh", 0, 2), Lk("minus3"), Lk("zero")]),
+    ]
+    hunk_hists = [h for h in hists if any(l["c"] in ("minus", "plus", "zero", "cin", "minus3") for l in h)]
     sample = hunk_hists if tier == "thorough" else rnd.sample(hunk_hists, min(len(hunk_hists), 3000))
     plans = [
         stream.Plan("rs", hunk_hists),
@@ -74,14 +94,18 @@ def run(tier):
         plans.append(stream.Plan("payload+markers+tabs2", [h], ["--keep-plus-minus-markers", "--tabs", "2"],
                                  {"keep": True, "tabs": 2}, fn))
         plans.append(stream.Plan("payload+tabs0+numbers", [h], ["--tabs", "0", "--line-numbers"], {"tabs": 0}, fn))
+    plans.append(stream.Plan("rs/lookalike", [h for _, h in lookalikes]))
     res = stream.execute_plans(plans)
     failed, n = stream.validate_runs([x[4] for x in res])
     log(f"[{PID}] replayed {n} runs, {len(failed)} rejected by Obs_Stream")
     for f in failed:
         p, h, data, r, ev, rows = res[f["run"]]
-        if not stream.relevant(PID, f):
+        if not stream.relevant(PID, f) and p.name != "rs/lookalike":
             continue
         sig = f"{f['why']}:{f['wt']}:{f['gt']}:{stream.shape(h)[:400]}"
+        if p.name == "rs/lookalike":
+            kind = next(k for k, hh in lookalikes if hh == h)
+            sig = "diffu-lookalike:" + kind
         V.violation(sig, f"history [{stream.shape(h)[:200]}] under {p.name}: wanted row {f['i']} ({f['wt']}) "
                     f"but output row {f['j']} is {f['gt']}",
                     {"history": h, "config": p.name, "run": r.to_json(), "failure": f})
@@ -97,7 +121,7 @@ def run(tier):
         "rule": "every Env_Git history up to ReplayLen lines containing a hunk line (TLC enumeration), x configurations; "
                 f"plus every payload string of bounded length over {ALPHABET!r} for each line kind; distinct = distinct (history, configuration)",
         "payload_strings": nstr, "transition_cover": covstats, "transition_cover_combined": covccstats,
-        "states_combined_model": mcc.distinct,
+        "states_combined_model": mcc.distinct, "diff_u_models": du_stats,
         "configs": sorted({x[0].name for x in res}),
         "drift": len(V.drift), "known_findings_hit": len(V.known_hit),
         "design_counterexamples": len(cex),
